@@ -103,8 +103,12 @@ def heur_req(rng, method, n, m, vals, extra_known=0, types=None, unit=UNIT):
     known = alts(tab, m)
     chose = [a['id'] for a in known[:n]]
     rng.shuffle(chose)
+    crits = [crit(j, types[j]) for j in range(m)]
+    for c in crits:     # a criterion without `type` is a gain criterion
+        if c['type'] == 'gain' and rng.random() < 0.2:
+            del c['type']
     return {'preferenceFunction': method, 'knownAlternatives': known, 'choseToMake': chose,
-            'criteria': [crit(j, types[j]) for j in range(m)], 'methodParameters': {}, 'biases': []}
+            'criteria': crits, 'methodParameters': {}, 'biases': []}
 
 
 def drv_majority(tier, rng):
@@ -158,6 +162,9 @@ def drv_majority(tier, rng):
 def level_source(rng, dir_, crits, types, vmax):
     """explicit thresholds (monotone per criterion) or a generated series with dyadic parameters"""
     r = rng.random()
+    if r < 0.15:     # explicit levels need not be monotone: any list is walked in the given order
+        ths = [{c: UNIT * rng.randint(0, vmax) for c in crits} for _ in range(rng.randint(1, 4))]
+        return 'thresholds', {'thresholds': ths}
     if r < 0.45:
         k = rng.randint(0, 3)
         steps = sorted(rng.sample(range(0, vmax + 1), min(k, vmax + 1)))
@@ -185,7 +192,7 @@ def drv_aspect(tier, rng):
         extra = rng.choice([0, 1])
         vmax = rng.choice([2, 4, 8])
         req = heur_req(rng, 'aspectEliminationHeuristic', n, m, list(range(0, vmax + 1)), extra)
-        types = [c['type'] for c in req['criteria']]
+        types = [c.get('type', 'gain') for c in req['criteria']]
         if rng.random() < 0.5:
             for c in req['criteria']:
                 if rng.random() < 0.5:
@@ -210,7 +217,7 @@ def drv_satisfaction(tier, rng):
         extra = rng.choice([0, 1, 2])
         vmax = rng.choice([2, 4, 8])
         req = heur_req(rng, 'satisfactionHeuristic', n, m, list(range(0, vmax + 1)), extra)
-        types = [c['type'] for c in req['criteria']]
+        types = [c.get('type', 'gain') for c in req['criteria']]
         if rng.random() < 0.5:
             for c in req['criteria']:
                 if rng.random() < 0.5:
